@@ -219,7 +219,7 @@ fn on_pending(w: &mut World, o: &ExecOpts, started: u64) -> Pend {
             }
             Pend::Continue
         }
-        Blocked::ReadNoData | Blocked::None => {
+        Blocked::ReadNoData | Blocked::WriteSlow | Blocked::None => {
             if let Some(wk) = wake {
                 if wk <= now {
                     // The client re-armed an already expired timer: a real CPU burns time here.
@@ -633,7 +633,7 @@ fn label(w: &mut World, l: &'static str) {
 fn std_opts(w: &mut World, cancellable: bool) -> ExecOpts {
     if w.twin_mode {
         // twin scenarios: no program-tape draws during execution
-        return ExecOpts { cancellable, idle_cancel: true, budget_us: None, timer_is_idle: false };
+        return ExecOpts { cancellable: cancellable && !w.no_cancel, idle_cancel: true, budget_us: None, timer_is_idle: false };
     }
     let budget = if w.benign {
         None
@@ -763,7 +763,23 @@ fn check_result(w: &mut World, op: &'static str, res: &Res, was_live: bool, io_e
                     (c.pingreq_outstanding, c.eof_read, c.broker_disconnect_consumed, c.pingresp_consumed_for.is_some())
                 };
                 let ping_timeout = outstanding.is_some_and(|t0| clock::now() >= t0 + 5 * US_PER_S);
-                if was_live && !eof_read && !ping_timeout && !bdc {
+                // a PINGREQ is outstanding and the 5 s have passed since the client *started*
+                // writing it, but not since it was completely sent (slow transport)
+                let counted_from_write_start = outstanding.is_some()
+                    && w.conns[cur].pingreq_first_offer.is_some_and(|f| clock::now() >= f + 5 * US_PER_S)
+                    && !ping_timeout;
+                if was_live && !eof_read && !bdc && counted_from_write_start {
+                    w.violate(
+                        "C10",
+                        "timeout-before-bound/counted-from-start-of-slow-pingreq-write".into(),
+                        format!(
+                            "{op} returned Disconnected at t={}: the PINGREQ was completely sent at {:?}, less than 5 s ago; its first byte was offered at {:?}",
+                            clock::now(),
+                            outstanding,
+                            w.conns[cur].pingreq_first_offer
+                        ),
+                    );
+                } else if was_live && !eof_read && !ping_timeout && !bdc {
                     w.violate(
                         "C10",
                         format!("unexplained-disconnected/op={op}/pingresp-seen={had_resp}"),
@@ -970,14 +986,25 @@ pub fn do_publish(conn: &mut Conn<'_, '_>, spec: &PubSpec) -> Res {
             }
             buf[..payload.len()].copy_from_slice(payload);
             Ok(payload.len())
-        })
-        .qos(qos_of(spec.qos))
-        .properties(&mprops);
-        if spec.retain {
-            p = p.retain();
+        });
+        // the builder calls in one of their 24 orders (a function of the request tag)
+        let mut order = [0u8, 1, 2, 3];
+        let mut h = crate::util::mix(spec.tag as u64, 0x9B1);
+        for i in (1..4).rev() {
+            order.swap(i, (h % (i as u64 + 1)) as usize);
+            h /= 7;
         }
-        if let Some(c) = &spec.correlate {
-            p = p.correlate(c);
+        for step in order {
+            p = match step {
+                0 => p.qos(qos_of(spec.qos)),
+                1 => p.properties(&mprops),
+                2 if spec.retain => p.retain(),
+                3 => match &spec.correlate {
+                    Some(c) => p.correlate(c),
+                    None => p,
+                },
+                _ => p,
+            };
         }
         match exec(conn.publish(p), opts) {
             None => Res::Cancelled,
@@ -1076,17 +1103,29 @@ pub fn do_subscribe(conn: &mut Conn<'_, '_>, spec: &SubSpec) -> Res {
     let filters: Vec<TopicFilter<'_>> = spec
         .filters
         .iter()
-        .map(|f| {
-            let mut o = SubscriptionOptions::default().maximum_qos(qos_of(f.max_qos)).retain_behavior(match f.retain_handling {
-                0 => RetainHandling::Immediately,
-                1 => RetainHandling::IfSubscriptionDoesNotExist,
-                _ => RetainHandling::Never,
-            });
-            if f.no_local {
-                o = o.ignore_local_messages();
+        .enumerate()
+        .map(|(fi, f)| {
+            // the four builder calls in one of the 24 possible orders (a function of the request
+            // tag): no setter may disturb what another one has set
+            let mut order = [0u8, 1, 2, 3];
+            let mut h = crate::util::mix(spec.tag as u64, 0x0B7 + fi as u64);
+            for i in (1..4).rev() {
+                order.swap(i, (h % (i as u64 + 1)) as usize);
+                h /= 7;
             }
-            if f.rap {
-                o = o.retain_as_published();
+            let mut o = SubscriptionOptions::default();
+            for step in order {
+                o = match step {
+                    0 => o.maximum_qos(qos_of(f.max_qos)),
+                    1 => o.retain_behavior(match f.retain_handling {
+                        0 => RetainHandling::Immediately,
+                        1 => RetainHandling::IfSubscriptionDoesNotExist,
+                        _ => RetainHandling::Never,
+                    }),
+                    2 if f.no_local => o.ignore_local_messages(),
+                    3 if f.rap => o.retain_as_published(),
+                    _ => o,
+                };
             }
             TopicFilter::new(&f.filter).options(o)
         })
